@@ -226,6 +226,10 @@ package bexpr
 //@   assigns nothing
 //@   loop 1:
 //@     invariant 0 <= i
+//@     invariant kind(collVal(expression, datum, absOpts(FoldOpts(opt)))) == K.Map ==> keys == sortedKeys(collVal(expression, datum, absOpts(FoldOpts(opt)))) && len(keys) == rlen(collVal(expression, datum, absOpts(FoldOpts(opt))))
+//@     invariant kind(collVal(expression, datum, absOpts(FoldOpts(opt)))) != K.Map ==> keys == zero[[]reflect.Value]
+//@     invariant[C01,C06,C14] FoldColl(expression, datum, absOpts(FoldOpts(opt)), collVal(expression, datum, absOpts(FoldOpts(opt))), keys, i) == FoldColl(expression, datum, absOpts(FoldOpts(opt)), collVal(expression, datum, absOpts(FoldOpts(opt))), keys, 0)
+//@     decreases rlen(collVal(expression, datum, absOpts(FoldOpts(opt)))) - i
 
 //@ func evaluate(ast, datum, opt) (res, err)
 //@   requires wf(ast) && wfOpts(opt)
